@@ -148,7 +148,9 @@ def fault_stage(c, remote):
           op = sv.SuggestTrials(vsp.SuggestTrialsRequest(parent=sn, suggestion_count=cnt, client_id=w))
           status = 'error-op' if op.HasField('error') else ('done' if op.done else 'PENDING')
           nt = len(vsp.SuggestTrialsResponse.FromString(op.response.value).trials) if op.HasField('response') else 0
-        except Exception as e:  # pylint: disable=broad-except
+        except (KeyboardInterrupt, SystemExit):
+          raise
+        except BaseException as e:  # pylint: disable=broad-except   (an error class outside Exception is still 'the algorithm raised')
           status, nt = 'EXC:' + type(e).__name__, 0
         calls.append([w, cnt, status, nt])
         # the failure must be REPORTED: a call during which the algorithm raised does not answer normally
@@ -207,7 +209,9 @@ def fault_stage(c, remote):
           try:
             r = sv.CheckTrialEarlyStoppingState(vsp.CheckTrialEarlyStoppingStateRequest(trial_name=t.name))
             outcomes.append('ok')
-          except Exception as e:  # pylint: disable=broad-except
+          except (KeyboardInterrupt, SystemExit):
+            raise
+          except BaseException as e:  # pylint: disable=broad-except
             outcomes.append('EXC:' + type(e).__name__)
           planned.append(script['es'][calls_before % len(script['es'])][0] if script['es_calls'] > calls_before else 'not-consulted')
         case['es_planned'] = planned
